@@ -349,6 +349,11 @@ func (jenny RawTypes) fromJSONForType(context languages.Context, typeDef ast.Typ
 			}
 		}
 
+		// the reference can't be resolved (unknown object or cycle of references)
+		if resolvedType.IsRef() {
+			return fromJSONCode{DecodingCall: inputVar}
+		}
+
 		return jenny.fromJSONForType(context, resolvedType, inputVar, hint+"_ref")
 	} else if typeDef.IsArray() {
 		if typeDef.Array.IsArrayOf(ast.KindScalar) {
